@@ -98,6 +98,12 @@ class S3LockProviderBase(LockProvider):
         self._etag: Optional[str] = None
         self._state_lock = threading.Lock()
 
+    @staticmethod
+    def _owner_of(content: str) -> str:
+        """Lock id recorded in a lock object's body (CAS providers append a
+        per-write nonce after a ':')."""
+        return content.split(":", 1)[0]
+
     def acquire(self) -> bool:
         start_time = time.time()
         while True:
@@ -144,7 +150,7 @@ class S3LockProviderBase(LockProvider):
             try:
                 resp = self.s3.get_object(Bucket=self.bucket, Key=self.key)
                 content = resp['Body'].read().decode('utf-8')
-                if content != self.lock_id:
+                if self._owner_of(content) != self.lock_id:
                     self.is_locked = False
                     return False
                 return True
@@ -206,7 +212,7 @@ class S3LockProviderBase(LockProvider):
             resp = self.s3.get_object(Bucket=self.bucket, Key=self.key)
             content = resp['Body'].read().decode('utf-8')
 
-            if content == self.lock_id:
+            if self._owner_of(content) == self.lock_id:
                 self.s3.delete_object(Bucket=self.bucket, Key=self.key)
             else:
                 logger.warning(f"Skipping release of S3 lock at {self.key}: Lock owner changed (expected {self.lock_id}, got {content})")
@@ -241,6 +247,18 @@ class S3LockProvider(S3LockProviderBase):
       instead of silently resurrecting our lock)
     """
 
+    def _lock_body(self) -> bytes:
+        """Body for the next write of the lock object: our id plus a fresh nonce.
+
+        An S3 ETag is a hash of the content, so re-writing an identical body on
+        renewal leaves the ETag unchanged. A contender that observed an expired
+        lease, and whose takeover PUT (If-Match: <that ETag>) arrives just after
+        our renewal, would then still win - taking over a lock whose lease had
+        NOT lapsed. The nonce makes every renewal change the ETag, which is
+        what the compare-and-swap protocol above relies on.
+        """
+        return f"{self.lock_id}:{uuid.uuid4().hex}".encode('utf-8')
+
     def _try_acquire(self) -> bool:
         import botocore.exceptions
         try:
@@ -248,7 +266,7 @@ class S3LockProvider(S3LockProviderBase):
             resp = self.s3.put_object(
                 Bucket=self.bucket,
                 Key=self.key,
-                Body=self.lock_id.encode('utf-8'),
+                Body=self._lock_body(),
                 IfNoneMatch='*'
             )
             with self._state_lock:
@@ -292,7 +310,7 @@ class S3LockProvider(S3LockProviderBase):
             put_resp = self.s3.put_object(
                 Bucket=self.bucket,
                 Key=self.key,
-                Body=self.lock_id.encode('utf-8'),
+                Body=self._lock_body(),
                 IfMatch=etag,
             )
             with self._state_lock:
@@ -319,7 +337,7 @@ class S3LockProvider(S3LockProviderBase):
             resp = self.s3.put_object(
                 Bucket=self.bucket,
                 Key=self.key,
-                Body=self.lock_id.encode('utf-8'),
+                Body=self._lock_body(),
                 IfMatch=etag,
             )
             with self._state_lock:
